@@ -83,7 +83,7 @@ Next == \/ \E s \in Skeletons : ChooseSkeleton(s)
         \/ \E i \in 1..Len(NumCat), j \in 0..Len(NumCat) : ChooseValue("num", i, j)
         \/ \E i \in 1..Len(StrCat), j \in 0..Len(StrCat) : ChooseValue("str", i, j)
         \/ \E i \in 0..3 : ChooseValue("arr", i, 0)
-        \/ \E n \in RuleNames, i \in 0..16 : AddRule([n |-> n, i |-> i])
+        \/ \E n \in RuleNames, i \in 0..20 : AddRule([n |-> n, i |-> i])
         \/ Finish
 Spec == Init /\ [][Next]_vars
 
